@@ -132,8 +132,14 @@ def mutants(args):
     for meta in sorted(glob.glob(os.path.join(VERIF, "seeded", "*", "meta.json"))):
         m = json.load(open(meta))
         entries.append((os.path.basename(os.path.dirname(meta)), os.path.join(os.path.dirname(meta), "patch.diff"), m.get("detected_by", [m["property"]]), m))
+    part = [a for a in args if a.startswith("--part=")]
+    args = [a for a in args if not a.startswith("--part=")]
     if args:
         entries = [e for e in entries if e[0] in args]
+    if part:
+        # --part=i/n: every n-th change starting with the i-th (to run n invocations side by side)
+        i, n = (int(x) for x in part[0][7:].split("/"))
+        entries = entries[i::n]
     rc = 0
     results = []
     for name, patch, checks, meta in entries:
@@ -165,13 +171,16 @@ def mutants(args):
                 print("    %s %s %.0fs %s" % (prop, "violation" if hit else "quiet", dt, first))
         finally:
             drop_scratch(d)
-    # record what was observed (merged with earlier results for mutants not run this time)
+    # record what was observed (merged with earlier results for mutants not run this time; several invocations may run side by side)
+    import fcntl
     path = os.path.join(VERIF, "seeded", "RESULTS.json")
-    old = json.load(open(path)) if os.path.exists(path) else {}
-    for name, ok, caught in results:
-        old[name] = {"caught": ok, "checks": [{"property": p, "violation": h, "first_clause": f, "seconds": round(dt)} for p, h, f, dt in caught]}
-    json.dump(old, open(path, "w"), indent=1, sort_keys=True)
-    write_detection_table(old)
+    with open(os.path.join(VERIF, "build", "results.lock"), "w") as lock:
+        fcntl.flock(lock, fcntl.LOCK_EX)
+        old = json.load(open(path)) if os.path.exists(path) else {}
+        for name, ok, caught in results:
+            old[name] = {"caught": ok, "checks": [{"property": p, "violation": h, "first_clause": f, "seconds": round(dt)} for p, h, f, dt in caught]}
+        json.dump(old, open(path, "w"), indent=1, sort_keys=True)
+        write_detection_table(old)
     return rc
 
 
@@ -186,12 +195,14 @@ def write_detection_table(results):
         r = results.get(name)
         if not r:
             continue
+        if not r["caught"] and m.get("expected_missed"):
+            r = dict(r, note="expected: " + m["expected_missed"])
         checks = ", ".join("%s: %s" % (c["property"], (c["first_clause"].split("clause=")[1].split(" ")[0] if c["violation"] and "clause=" in c["first_clause"] else ("violation" if c["violation"] else "quiet"))) for c in r["checks"])
         origin = "sub-agent" if "sub-agent" in m.get("origin", "") else "own"
         needs = m.get("needs", "")
         if needs == "see README.md":
             needs = m.get("summary", "see README.md")
-        lines.append("| %s | %s | %s | %s | %s | %s |" % (name, m["property"], origin, needs.replace("|", "/")[:160], checks, "caught" if r["caught"] else "MISSED"))
+        lines.append("| %s | %s | %s | %s | %s | %s |" % (name, m["property"], origin, needs.replace("|", "/")[:160], checks, "caught" if r["caught"] else ("not caught - " + r["note"][:300] if r.get("note") else "MISSED")))
     open(os.path.join(VERIF, "seeded", "DETECTION.md"), "w").write("\n".join(lines) + "\n")
 
 
